@@ -128,11 +128,12 @@ PROPS = {
                 theorems=['Esc.P.C05_exact_formula', 'Esc.P.C05_ceil_sufficient_minimal', 'Esc.P.C05_delta_is_max', 'Esc.P.C05_from_zero_exact',
                           'Esc.P.C05_from_zero_no_cache', 'Esc.P.C05_float_short_witness',
                           'Esc.P.C05_float_error', 'Esc.P.C05_float_within_one', 'Esc.P.C05_from_zero_float_error', 'Esc.P.C05_from_zero_within_one',
-                          'Esc.P.StdModel_rne64', 'Esc.P.C05_rne64_within_one'],
+                          'Esc.P.StdModel_rne64', 'Esc.P.C05_rne64_within_one', 'Esc.P.C05_float_sufficient', 'Esc.P.C05_float_full_in_region',
+                          'Esc.P.C05_rne64_full_in_region'],
                 technique='Lean 4 theorems: over exact rationals the formula is the minimal sufficient node count (and the from-zero variants); over any rounding function satisfying the standard model of floating-point arithmetic the float pipeline is within (n/T)(8uP+4uT) of the exact value, hence within one node; the model\'s binary64 round-to-nearest-even satisfies that model with u=2^-53 (proved) and is tied to Go bit for bit by the differential correspondence; exact-rational monitor of every observed delta; partial',
                 level_text='PARTIAL. Exact layer proved: n + ceil(n*((pct-T)/T)) = ceil(100R/(sT)) for n>0 equal nodes, which is sufficient and minimal (C05_exact_formula, C05_ceil_sufficient_minimal); the delta is the max over CPU and memory; from zero: ceil(100R/(cT)) with the cached size, '
                            'exactly 1 without cache; composition untainted + requested = delta unless clamped (C07_remainder). Float layer: the model executes binary64 round-to-nearest-even on rationals (rne64) and is compared bit for bit (Float64bits) with Go on every case; '
-                           'the statement "float result >= exact need" is false at extreme magnitudes (C05_float_short_witness, finding T2). Proved instead: for every rounding function obeying the standard model with unit round-off u (relative error <= u per operation, integers up to 2^53 exact) the value that is ceiled differs from the exact one by at most (n/T)(8uP+4uT) = 8u*N + 4u*n (C05_float_error; from zero: 4u*N, C05_from_zero_float_error), so the requested count is within one node of the exact minimal count whenever that budget is below 1 (C05_float_within_one, C05_from_zero_within_one); rne64, the function the driver executes and Go is compared with bit for bit, obeys the standard model with u = 2^-53 (StdModel_rne64, C05_rne64_within_one). Not proved: that the float result is never one short inside the budget region (it can be: the exact-rational monitor on each observed delta reports a short result that is not the listed finding).',
+                           'the statement "float result >= exact need" is false at extreme magnitudes (C05_float_short_witness, finding T2). Proved instead: for every rounding function obeying the standard model with unit round-off u (relative error <= u per operation, integers up to 2^53 exact) the value that is ceiled differs from the exact one by at most (n/T)(8uP+4uT) = 8u*N + 4u*n (C05_float_error; from zero: 4u*N, C05_from_zero_float_error), so the requested count is within one node of the exact minimal count whenever that budget is below 1 (C05_float_within_one, C05_from_zero_within_one); rne64, the function the driver executes and Go is compared with bit for bit, obeys the standard model with u = 2^-53 (StdModel_rne64, C05_rne64_within_one). Sufficiency of the float result: the exact value exceeds every integer below it by at least 1/(s*T), so whenever the budget is below that granularity - with u = 2^-53: (8N+4n)*s*T < 2^53 - the float pipeline never asks for fewer than the exact minimal count (C05_float_sufficient), and n + delta lies in [N, N+1], N = ceil(100R/(sT)) (C05_float_full_in_region; C05_rne64_full_in_region for the executed model). Outside that region the property is false (T2) and the exact-rational monitor decides each observed delta. From zero: within one node (C05_from_zero_within_one); sufficiency from zero is monitored, not proved.',
                 level_note=LEVEL_NOTE + ' Go float64 arithmetic = IEEE-754 binary64 RNE (checked bit-for-bit against the model on every run, not proved).'),
     'C06': dict(level='proof', module='EscProofs.P.C06Starve', streams=hist('C06', focus='bands'),
                 aspects=['hist:taintadds', 'hist:untaints', 'hist:resize', 'hist:delta'], monitors=['C06'],
